@@ -346,6 +346,18 @@ func TestVerif_C12(t *testing.T) {
 			vals = append(vals, v)
 		}
 	}
+	// every (distance, copy length) relation of an LZF back-reference, as a string value, as a
+	// hash field/value and as the compressed container of a ziplist
+	for i, s := range rdbcat.LZFFamily() {
+		v := rdbgen.StringVal(s)
+		v.Name = "string/" + s.Form
+		vals = append(vals, v)
+		if i%3 == 0 {
+			h := rdbgen.HashVal([]rdbgen.Str{s, s}, rdbgen.LCanon)
+			h.Name = "hash/" + s.Form
+			vals = append(vals, h)
+		}
+	}
 	if ev.ReplayFile() != "" {
 		var c c12Case
 		if err := ev.LoadReplay(&c); err == nil && c.Sub != "" {
